@@ -40,7 +40,7 @@ def corruptions(rows, rng, per_token):
     toks = [(i, j) for i, r in enumerate(rows) for j, c in enumerate(r)
             if r and not r[0].strip().startswith('#') and c.strip() != '']
     for (i, j) in toks:
-        kinds = ['abc', '', '1e400', '-1', 'nan', '0', '#' + rows[i][j], rows[i][j] + ' x', '--5', '1,2']
+        kinds = ['abc', '', '1e400', '-1', 'nan', 'inf', '0', '#' + rows[i][j], rows[i][j] + ' x', '--5', '1,2']
         for k in (kinds if per_token is None else rng.sample(kinds, per_token)):
             new = [list(r) for r in rows]
             new[i][j] = k
@@ -52,6 +52,31 @@ def corruptions(rows, rng, per_token):
     for cut in (1, len(rows) // 2, len(rows) - 1):
         out.append((('truncate', cut), [list(r) for r in rows[:cut]]))
     return out
+
+
+def simulate_corrupted(args):
+    """Worker: read a corrupted parameter file that the reader ACCEPTED and run one day. Fail-stop
+    means: an exception, or complete finite in-bound records and a numeric written file."""
+    repo, pth, outdir, tag = args
+    os.environ['UWG_REPO'] = repo
+    core.REPO = repo
+    uwg = U.uwg_mod()
+
+    def call():
+        with core.quiet():
+            m = uwg.UWG.from_param_file(pth, epw_path=U.rp(U.EPW_SGP), new_epw_dir=outdir,
+                                        new_epw_name='s%s.epw' % tag)
+            m.nday = 1
+            m.generate()
+            m.simulate()
+            m.write_epw()
+        return finite_records(m) or numeric_file(m.new_epw_path, m.simTime.timeInitial, 24, 1)
+    try:
+        return with_watchdog(call, 300)
+    except Hang:
+        return 'HANG: no return within 300 s (normal: < 2 s)'
+    except Exception:  # noqa - an exception is the fail-stop outcome
+        return None
 
 
 def finite_records(m):
@@ -160,6 +185,36 @@ def run(chk):
                           '(normal: < 10 ms)', expected='exception')
         except Exception:  # noqa
             stats['raised'] += 1
+    # corruptions the reader ACCEPTED with a non-finite or extreme token: simulate them (in parallel)
+    import multiprocessing
+    jobs = []
+    accepted_nf = [(what, new) for what, new in corruptions(rows, rng, None)
+                   if isinstance(what[0], int) and what[2] in ('1e400', 'nan', 'inf', '-1', '0')]
+    if chk.tier == 'quick':
+        # every scalar parameter set to inf, plus a sample of the other non-finite corruptions
+        scalar_inf = [c for c in accepted_nf if c[0][2] == 'inf' and c[0][1] == 1]
+        rest = [c for c in accepted_nf if c[0][2] in ('1e400', 'nan', 'inf') and c not in scalar_inf]
+        accepted_nf = scalar_inf + rng.sample(rest, min(24, len(rest)))
+    for n_, (what, new) in enumerate(accepted_nf):
+        pj = os.path.join(work, 'nf%d.uwg' % n_)
+        with open(pj, 'w', newline='') as f:
+            csv.writer(f, lineterminator='\n').writerows(new)
+        jobs.append((core.REPO, pj, work, str(n_)))
+    with multiprocessing.Pool(min(16, max(1, len(jobs)))) as pool:
+        outs = pool.map(simulate_corrupted, jobs, chunksize=2)
+    nbad_nf = 0
+    for (what, new), msg in zip(accepted_nf, outs):
+        if msg:
+            nbad_nf += 1
+            if nbad_nf <= 3:
+                chk.violation('impl-violation', 'corrupted parameter value simulated without fail-stop',
+                              case={'row': new[what[0]], 'token_index': what[1], 'token': what[2]},
+                              observed=msg, expected='exception, or complete finite in-bound records and a '
+                                                     'numeric weather file')
+    chk.direct('simulate-accepted-corruptions(non-finite / extreme tokens)', len(jobs), len(jobs),
+               'parameter files with one value replaced by inf / nan / 1e400 (thorough: also 0 and -1): when the '
+               'reader and setters accept them, generate; simulate; write_epw must raise or give complete finite '
+               'records and numeric fields (300 s watchdog)', mismatches=nbad_nf)
     chk.direct('reader-single-token-corruption(watchdog)', len(corr), len(corr),
                'every non-comment token of resources/initialize_singapore.uwg replaced by non-numeric / empty / '
                'overflow / negative / nan / commented / split text (quick: 2 kinds per token), plus dropped rows and '
